@@ -77,7 +77,13 @@ def run_case(cs, ctx):
             v['pmax'] = v['pmin']
             v.pop('lq', None)
             ctx.cov('first_side_list_of_258_or_more_entries_with_dense_ties')
-        if cs % 40 == 16 and v['mp'] in ('ha', 'hr', 'spa'):
+        if ctx.shard == 1 and not getattr(ctx, '_did_66k', False) and v['mp'] in ('ha', 'hr'):
+            # more than 65535 rankable agents (ids no longer fit 16 bits), lists long enough to reach the high ids
+            ctx._did_66k = True
+            v.update({'n1': 2, 'n2': 66000, 'pmin': 3000, 'pmax': 3000, 'uq': 66000 + rng.randint(0, 9), 'numinst': 1, 't1': 0.0})
+            v.pop('lq', None)
+            ctx.cov('more_than_65535_rankable_agents')
+        elif cs % 40 == 16 and v['mp'] in ('ha', 'hr', 'spa'):
             # quota sums that no double represents exactly (accepted: -uq only has to be at least n2)
             big = rng.choice([10 ** 17 + 1, 2 ** 60 + 5, 9007199254740993, 123456789012345678901])
             v['uq'] = big + rng.randint(0, 6)
@@ -143,7 +149,7 @@ def run_case(cs, ctx):
     case['second_run_into_existing_directory'] = rerun
     # transient files inside the output directory (write-then-rename) are the implementation's business: the
     # final directory listing is checked above; what must not happen is a write outside the requested directory
-    top = os.path.join(ctx.workdir, 'gen_c08')
+    top = ge.top_of(outdir)
     allowed.add(top)
     root = top + os.sep
     bad = [e for e in res['fs'] if e[0] != 'open_r' and e[1] not in allowed and not str(e[1]).startswith(root)]
